@@ -11,6 +11,7 @@ import NxsModel.Driver.Handshake
 import NxsModel.Driver.Fanout
 import NxsModel.Driver.Lifecycle
 import NxsModel.Driver.Worker
+import NxsModel.Driver.Family
 open Nxs Nxs.Driver
 
 def dispatch (toks : List String) : String :=
@@ -28,6 +29,7 @@ def dispatch (toks : List String) : String :=
   | "fan" :: rest => (fanOp rest).getD "bad-op"
   | "life" :: rest => (lifeOp rest).getD "bad-op"
   | "worker" :: rest => (workerOp rest).getD "bad-op"
+  | "fam" :: rest => (famOp rest).getD "bad-op"
   | _ => "bad-op"
 
 partial def loop (h : IO.FS.Stream) (out : IO.FS.Stream) : IO Unit := do
